@@ -3,3 +3,4 @@ import Hub.Props.C17
 import Hub.Props.C11
 import Hub.Props.C16
 import Hub.Props.C13
+import Hub.Props.C09
